@@ -182,6 +182,25 @@ func CheckCase(cs Case) *ev.Violation {
 	// every read-only accessor, debugging dump and formatter may run in between: none of them is an Update
 	readOnly(&c, nil)
 	readOnly(tc, t)
+	// D: a row built on its own; the item changes between Row.Add and AddRow, and the table (and the column) has add-time
+	// cell callbacks that only look: joining a table is not an Update either
+	live4 := gen.Materialise(cs.Item)
+	want4 := gen.TextForm(cs.Item, live4)
+	t4 := tabular.New()
+	t4.AddHeaders("h")
+	t4.RegisterPropertyCallback(t4, tabular.CB_AT_ADD, tabular.CB_ON_CELL, lookOnly{})
+	t4.RegisterPropertyCallback(t4.Column(1), tabular.CB_AT_ADD, tabular.CB_ON_CELL, lookOnly{})
+	r4 := tabular.NewRow()
+	r4.Add(tabular.NewCell(live4.V))
+	applyMut(live4, cs.Item, *cs.Mut)
+	t4.AddRow(r4)
+	tc4, err := t4.CellAt(tabular.CellLocation{Row: 1, Column: 1})
+	if err != nil {
+		return ev.V("CellAt(1,1) of a table whose row was built on its own: %v", err)
+	}
+	if v := observe("row built on its own, item mutated before AddRow, add-time cell callbacks registered", tc4, want4, live4.V); v != nil {
+		return v
+	}
 	applyMut(live3, cs.Item, *cs.Mut)
 	for _, style := range []string{"json", "csv", "html", "markdown", "utf8-light", "none"} {
 		auto.Render(t3, style) // rendering is reading: in no format is it an Update
@@ -229,6 +248,16 @@ func CheckCase(cs Case) *ev.Violation {
 	// a second Update is idempotent
 	c.Update()
 	return observe("after second Update", &c, newWant, live.V)
+}
+
+// lookOnly is a callback that reads the cell it is handed and sets nothing.
+type lookOnly struct{}
+
+func (lookOnly) UpdateProperties(po tabular.PropertyOwner) error {
+	if c, ok := po.(*tabular.Cell); ok {
+		_ = c.String()
+	}
+	return nil
 }
 
 // readOnly exercises everything that reads a cell or table without being asked to update it.
